@@ -376,6 +376,13 @@ def translate_function(body, consts, gfgen_is_cauchy):
                'None' if nd1 is None else 'Some %d%%nat' % nd1))
 
 
+# the generator variants that the proofs name one by one (Simd/SimdAll.v); one that disappears from the source
+# becomes `None`, a new one is appended to all_gen_progs
+EXPECTED = ['raid_gen1_sse2', 'raid_gen1_avx2', 'raid_gen2_sse2', 'raid_gen2_avx2', 'raid_gen2_sse2ext',
+            'raid_gen3_ssse3', 'raid_gen3_ssse3ext', 'raid_gen3_avx2ext', 'raid_gen4_ssse3', 'raid_gen4_ssse3ext',
+            'raid_gen4_avx2ext', 'raid_gen5_ssse3', 'raid_gen5_ssse3ext', 'raid_gen5_avx2ext', 'raid_gen6_ssse3',
+            'raid_gen6_ssse3ext', 'raid_gen6_avx2ext', 'raid_genz_sse2', 'raid_genz_sse2ext', 'raid_genz_avx2ext']
+
 FUNC_RE = re.compile(r'\bvoid\s+(raid_(gen|rec)(\w)_(\w+))\s*\(([^)]*)\)\s*\{')
 
 
@@ -418,6 +425,13 @@ def translate(snap):
             except Unsupported as e:
                 msgs.append('UNSUPPORTED %s: %s' % (name, e))
             gens.append((name, g or 'G1', term))
+    found = set(n for n, g, t in gens)
+    for name in EXPECTED:
+        if name not in found:
+            msgs.append('UNSUPPORTED %s: function not found in raid/x86.c, raid/x86z.c' % name)
+            gens.append((name, genfn_of(name[8]), None))
+    order = {n: k for k, n in enumerate(EXPECTED)}
+    gens.sort(key=lambda x: order.get(x[0], len(order)))
     lines = ["(* GENERATED from raid/x86.c, raid/x86z.c by harness/gen/x86asm.py -- do not edit *)",
              "From Coq Require Import NArith List String.", "From Snap.Raid Require Import GenModel.",
              "From Snap.Simd Require Import SimdDefs.", "Import ListNotations.", ""]
